@@ -14,17 +14,21 @@ Init == t = <<>> /\ phase = "grow" /\ style = "" /\ ctxn = "" /\ ch = <<>> /\ eb
 Grow == /\ phase = "grow" /\ Len(t) < N /\ \E c \in Sigma : t' = Append(t, c)
         /\ UNCHANGED <<phase, style, ctxn, ch, eb, ci, pad>>
 MaxCh(s) == IF s = "double" THEN 4 ELSE 1
+\* style, context and layout parameters first, then one presentation choice per character (one step each, so
+\* that long targets can be simulated without enumerating all choice vectors at once)
 Choose == /\ phase = "grow"
           /\ \E s \in {"plain", "single", "double"}, cn \in CtxNames :
                /\ (Representable(t, s, Ctx(cn)) = TRUE)       \* "= TRUE": evaluated as an expression (TLC would otherwise split the disjunctions into action branches)
                /\ style' = s /\ ctxn' = cn
-               /\ ch' \in [1..Len(t) -> 0..MaxCh(s)]
-               /\ eb' \in [1..Len(t) -> (IF s = "double" THEN {0, 1} ELSE {0})]
-               /\ ci' \in 0..1 /\ pad' \in 0..1
-               \* layout parameters only matter when a line break is written
-               /\ LET multi == \E i \in 1..Len(t) : (IsNl(t[i]) \/ (Foldable(t, i) /\ ch'[i] = 1) \/ eb'[i] = 1) IN (multi \/ (ci' = 0 /\ pad' = 0)) = TRUE
-          /\ phase' = "done" /\ UNCHANGED t
-Next == Grow \/ Choose
+          /\ ci' \in 0..1 /\ pad' \in 0..1
+          /\ ch' = <<>> /\ eb' = <<>>
+          /\ phase' = (IF t = <<>> THEN "done" ELSE "pick")
+          /\ UNCHANGED t
+Pick == /\ phase = "pick"
+        /\ \E c \in 0..MaxCh(style), e \in (IF style = "double" THEN {0, 1} ELSE {0}) : ch' = Append(ch, c) /\ eb' = Append(eb, e)
+        /\ phase' = (IF Len(ch) + 1 = Len(t) THEN "done" ELSE "pick")
+        /\ UNCHANGED <<t, style, ctxn, ci, pad>>
+Next == Grow \/ Choose \/ Pick
 Pres == Present(t, style, ch, eb, Ctx(ctxn), ci, pad)
 G == Wrap(ctxn, Pres, E_("Scalar", t, style))
 Core(e) == [k |-> e.k, v |-> e.v, style |-> e.style, aid |-> e.aid, tag |-> e.tag]
